@@ -22,6 +22,12 @@ func (s StringSubscript) StartIndex() Expression {
 	return s.startIndex
 }
 
+// SingleIndex reports whether the subscript addresses a single character (s[i]), in which
+// case the end-index is the start-index and must not be evaluated a second time.
+func (s StringSubscript) SingleIndex() bool {
+	return s.endIndex == nil
+}
+
 func (s StringSubscript) EndIndex() Expression {
 	endIndex := s.endIndex
 
